@@ -129,6 +129,27 @@ def L_append(ty, t, x):
     return L_mk(ty, n + 1, z3.Store(L_arr(ty, t), n, x))
 
 
+_cons_ufs = {}
+
+
+def L_cons(ty, x, t):
+    """[x] + t as a deterministic term (list.insert(0, x)): no lambda, equal arguments give equal lists"""
+    from .types import _name
+    k = _name(ty)
+    if k not in _cons_ufs:
+        _cons_ufs[k] = z3.Function('list_cons_' + k, sort_of(ty.elem), sort_of(ty), sort_of(ty))
+    return _cons_ufs[k](x, t)
+
+
+def L_cons_facts(ty, x, t):
+    c = L_cons(ty, x, t)
+    q = z3.Int('q!cons')
+    n = L_len(ty, t)
+    return [L_len(ty, c) == n + 1, L_get(ty, c, z3.IntVal(0)) == x,
+            z3.ForAll([q], z3.Implies(z3.And(q >= 1, q <= n), L_get(ty, c, q) == L_get(ty, t, q - 1)),
+                      patterns=[L_get(ty, c, q)])]
+
+
 def literal_elems(ty, t):
     """[e0, .., ek-1] if t is a list literal (mk with a numeral length over a store chain), else None"""
     if not _is_mk(t):
